@@ -324,6 +324,8 @@ def eff_mode(r, flip):
 
 
 def check(case):
+    if case.get("kind") == "two-places":
+        return check_bind(case)
     if case.get("kind") == "special-root":
         return check_special(case)
     if case.get("kind") == "mounts":
@@ -452,8 +454,54 @@ _ODD_DIRS = ["a\\b", "\\lead", "trail\\", "d[0]", "x y", "q?", "s*", "plain"]
 _ODD_TREE = {n: _sub(3) for n in _ODD_DIRS}
 
 
+def check_bind(case):
+    """One directory mounted a second time beside itself (a bind mount): without `symlinks` nothing is followed, so
+    both places are ordinary directories and every entry of both is listed - as `find` does."""
+    out = Outcome()
+    cdir = runner.new_case_dir()
+    base = os.path.join(cdir, "t")
+    try:
+        for d in ("", "/sub", "/sub/inner", "/sub2", "/other"):
+            os.mkdir(base + d)
+        for f in ("/sub/f1", "/sub/inner/f2", "/other/o"):
+            open(base + f, "w").close()
+        opts = (" " + case["mode"]) if case["mode"] else ""
+        if case["shape"] == "bind":
+            wrap = ["unshare", "-m", "sh", "-c", 'set -e\nmount --bind "$1/sub" "$1/sub2"\ncd "$1"; shift; exec "$@"', "sh", base]
+            q = "path from .%s into list" % opts
+            want = ["./other", "./other/o", "./sub", "./sub/f1", "./sub/inner", "./sub/inner/f2",
+                    "./sub2", "./sub2/f1", "./sub2/inner", "./sub2/inner/f2"]
+        else:
+            wrap = None
+            q = "path from sub%s, .%s into list" % (opts, opts)
+            want = ["sub/f1", "sub/inner", "sub/inner/f2", "./other", "./other/o", "./sub", "./sub/f1", "./sub/inner", "./sub/inner/f2", "./sub2"]
+        res = runner.run([q], cwd=base, wrap=wrap)
+        out.evals += 1
+        if res.wall_timeout:
+            out.inconclusive = True
+            return out
+        if wrap and (b"unshare" in res.err or b"mount:" in res.err):
+            out.classes = ["mounts-unavailable"]
+            return out
+        if res.status != 0 or res.err:
+            out.add("C01/%s/run-failed" % case["shape"], query=q, status=res.status, stderr=res.err[:200])
+            return out
+        got = collections.Counter(r[0] for r in runner.rows(res.out, 1))
+        if got != collections.Counter(want):
+            out.add("C01/%s/rows" % case["shape"], query=q, missing=sorted((collections.Counter(want) - got).elements()),
+                    extra=sorted((got - collections.Counter(want)).elements()))
+        out.nontrivial = True
+        out.nt_keys = ["%s|%s" % (case["shape"], case["mode"])]
+        out.classes = ["shape=" + case["shape"]]
+        out.sample = {"query": q, "rows": sum(got.values())}
+    finally:
+        runner.rmtree(cdir)
+    return out
+
+
 def enumerate_cases(tier):
-    cases = []
+    # (overlapping roots - `from sub, .` - are outside the property's "disjoint search roots" and not asserted)
+    cases = [{"kind": "two-places", "shape": "bind", "mode": m} for m in ("", "bfs", "dfs")]
     for mn in (None, 1, 2, 3, 4, 5):
         for mx in (None, 1, 2, 3, 4, 5):
             for mode in (None, "dfs"):
